@@ -1,7 +1,190 @@
 package main
 
-// Replay of solver counterexamples against the real code (overlay-injected in-package test).
+// Replay of solver counterexamples against the real code: a per-function Go test template
+// (/verif/replay/<function>.go.tmpl) is instantiated with the model values of the function's
+// inputs and injected into the real package with `go test -overlay` (nothing is written to the
+// repository). The test prints REPLAY-VIOLATION when the real code misbehaves on that input.
+
+import (
+	"bytes"
+	"context"
+	"encoding/json"
+	"fmt"
+	"os"
+	"os/exec"
+	"path/filepath"
+	"regexp"
+	"strconv"
+	"strings"
+	"text/template"
+	"time"
+)
+
+var smtEsc = regexp.MustCompile(`\\u\{([0-9a-fA-F]+)\}|\\x([0-9a-fA-F]{2})`)
+
+// smtStringValue turns an SMT-LIB string literal into a Go string (bytes).
+func smtStringValue(v string) (string, bool) {
+	v = strings.TrimSpace(v)
+	if len(v) < 2 || v[0] != '"' || v[len(v)-1] != '"' {
+		return "", false
+	}
+	v = strings.ReplaceAll(v[1:len(v)-1], `""`, `"`)
+	out := smtEsc.ReplaceAllStringFunc(v, func(m string) string {
+		sm := smtEsc.FindStringSubmatch(m)
+		h := sm[1]
+		if h == "" {
+			h = sm[2]
+		}
+		n, _ := strconv.ParseUint(h, 16, 32)
+		if n < 256 {
+			return string([]byte{byte(n)})
+		}
+		return string(rune(n))
+	})
+	return out, true
+}
+
+func smtIntValue(v string) (string, bool) {
+	v = strings.TrimSpace(v)
+	v = strings.ReplaceAll(v, "(", "")
+	v = strings.ReplaceAll(v, ")", "")
+	v = strings.ReplaceAll(v, " ", "")
+	if _, err := strconv.ParseInt(v, 10, 64); err == nil {
+		return v, true
+	}
+	if _, err := strconv.ParseUint(v, 10, 64); err == nil {
+		return v, true
+	}
+	return "", false
+}
+
+func templatePath(verif, fn string) string {
+	return filepath.Join(verif, "replay", sanitize(fn)+".go.tmpl")
+}
 
 func runReplay(P *Prog, o *Obligation, e *FnExec) (src string, out string, confirmed bool) {
-	return "", "no replay harness registered for " + o.Func, false
+	tp := templatePath(P.verif, o.Func)
+	data, err := os.ReadFile(tp)
+	if err != nil {
+		return "", "no replay template for " + o.Func + " (" + tp + ")", false
+	}
+	model := o.Model
+	missing := []string{}
+	funcs := template.FuncMap{
+		"int": func(name string, def ...string) string {
+			if v, ok := smtIntValue(model[name]); ok {
+				return v
+			}
+			missing = append(missing, name)
+			if len(def) > 0 {
+				return def[0]
+			}
+			return "0"
+		},
+		"str": func(name string) string {
+			if v, ok := smtStringValue(model[name]); ok {
+				return strconv.Quote(v)
+			}
+			missing = append(missing, name)
+			// abstract (uninterpreted) string values: derive a distinct concrete string per value
+			return strconv.Quote("v:" + model[name])
+		},
+		"bool": func(name string) string {
+			if strings.TrimSpace(model[name]) == "true" {
+				return "true"
+			}
+			return "false"
+		},
+		"has": func(name string) bool { _, ok := model[name]; return ok },
+		"obligation": func() string { return o.Name },
+		"kind":       func() string { return o.Kind },
+	}
+	t, err := template.New("replay").Funcs(funcs).Parse(string(data))
+	if err != nil {
+		return "", "template error: " + err.Error(), false
+	}
+	var buf bytes.Buffer
+	if err := t.Execute(&buf, model); err != nil {
+		return "", "template error: " + err.Error(), false
+	}
+	src = buf.String()
+	return runReplaySource(P.repo, P.verif, e.fn.Pkg.Pkg.Path(), P.modPath, src)
+}
+
+// runReplaySource injects src as an in-package test and runs it.
+func runReplaySource(repo, verif, pkgPath, modPath, src string) (string, string, bool) {
+	rel := strings.TrimPrefix(strings.TrimPrefix(pkgPath, modPath), "/")
+	pkgDir := filepath.Join(repo, rel)
+	dir, err := os.MkdirTemp(filepath.Join(verif, "build"), "replay-")
+	if err != nil {
+		return src, err.Error(), false
+	}
+	defer os.RemoveAll(dir)
+	gen := filepath.Join(dir, "zz_verif_replay_test.go")
+	os.WriteFile(gen, []byte(src), 0644)
+	ov := map[string]map[string]string{"Replace": {filepath.Join(pkgDir, "zz_verif_replay_test.go"): gen}}
+	ovData, _ := json.Marshal(ov)
+	ovFile := filepath.Join(dir, "overlay.json")
+	os.WriteFile(ovFile, ovData, 0644)
+	goBin := os.Getenv("REPO_GO")
+	if goBin == "" {
+		goBin = "go"
+	}
+	ctx, cancel := context.WithTimeout(context.Background(), 10*time.Minute)
+	defer cancel()
+	cmd := exec.CommandContext(ctx, goBin, "test", "-overlay", ovFile, "-vet=off", "-count=1", "-timeout", "120s", "-run", "^TestVerifReplay$", "-v", ".")
+	cmd.Dir = pkgDir
+	cmd.Env = os.Environ()
+	var outb bytes.Buffer
+	cmd.Stdout = &outb
+	cmd.Stderr = &outb
+	cmd.Run()
+	out := outb.String()
+	if len(out) > 8000 {
+		out = out[:8000] + "\n...[truncated]"
+	}
+	confirmed := strings.Contains(out, "REPLAY-VIOLATION")
+	return src, out, confirmed
+}
+
+// cmdReplay re-runs the test stored in a replay file against the current tree.
+func cmdReplay(argv []string) int {
+	repo, verif := "/repo", "/verif"
+	var file string
+	for i := 0; i < len(argv); i++ {
+		switch argv[i] {
+		case "-repo":
+			i++
+			repo = argv[i]
+		case "-verif":
+			i++
+			verif = argv[i]
+		default:
+			file = argv[i]
+		}
+	}
+	data, err := os.ReadFile(file)
+	if err != nil {
+		fmt.Println(err)
+		return 2
+	}
+	var rep map[string]interface{}
+	if err := json.Unmarshal(data, &rep); err != nil {
+		fmt.Println(err)
+		return 2
+	}
+	src, _ := rep["replay_test_source"].(string)
+	pkg, _ := rep["package"].(string)
+	if src == "" || pkg == "" {
+		fmt.Printf("replay file has no test (obligation %v: %v)\n", rep["obligation"], rep["solver_result"])
+		fmt.Println(rep["solver_output"])
+		return 1
+	}
+	_, out, confirmed := runReplaySource(repo, verif, pkg, readModulePath(repo), src)
+	fmt.Println(out)
+	if confirmed {
+		fmt.Printf("VIOLATION property=%v replay=%s\n", rep["property"], file)
+		return 1
+	}
+	return 0
 }
